@@ -22,7 +22,13 @@ RULE = ("cases: Circuit.decomposition(U, block, ...) on U in {Haar-random (Matri
         "rotations, eps log-uniform in [1e-8, 1e-1]: entries far below / just below / just above / far above the precision) "
         "and TIGHT PRECISION (4e-9, 6e-9 with max_try=30) where tries are abandoned partway and a later one succeeds. The "
         "verdict is always against the ORIGINAL request; the caller's matrix object must be unchanged beyond entries <= "
-        "precision.")
+        "precision. The REPRESENTATION of the request is a dimension of every stream: perceval Matrix, numpy complex128, "
+        "Fortran-ordered, transposed view, read-only, float64 (real orthogonal kinds: real Haar by QR, plane rotations, "
+        "Hadamard / Householder), int64 / int8 (permutations, signed permutations), complex64 and nested lists (may be "
+        "refused before the elimination starts), through Circuit.decomposition and through decompose_triangle called "
+        "directly; the verdict is against the mathematical matrix. Abandoned tries are crossed with every flag "
+        "(inverse_h, inverse_v, both, phase layer, permutation, ignore_identity_block, constraints, merge); the tight "
+        "stream continues until 3 circuits were found at an even attempt under an inversion flag (at most 16 cases).")
 TRUSTED = ["model: coq/Model/Decomp.v (hand-written; tied to /repo by the replay stream of this check)",
            "the numerical solver (scipy L-BFGS-B from random starts, sympy inverse/lambdify) is an ORACLE: its answers are "
            "validated per instance by the proved checker, never assumed correct"]
@@ -89,7 +95,7 @@ def make_blocks(pcvl):
 
 
 BS_PHASE_BLOCKS = {"bs_tr", "bsH_tr", "bsRy_tr", "bs_tl"}
-KINDS = ["haar", "perm", "permdiag", "block", "diag", "sparse"]
+KINDS = ["haar", "perm", "permdiag", "block", "diag", "sparse", "real", "sperm"]
 
 
 def gen_matrix(np, pcvl, rng, kind, m):
@@ -133,7 +139,69 @@ def gen_matrix(np, pcvl, rng, kind, m):
         return M
     if kind == "weak":
         return gen_weak(np, pcvl, rng, m)[1]
+    if kind == "real":
+        # real orthogonal: real Haar (QR), product of plane rotations, Hadamard / Householder reflection
+        sub = rng.below(3)
+        if sub == 0:
+            q, r = np.linalg.qr(np.random.randn(m, m))
+            return (q * np.sign(np.diag(r))).astype(complex)
+        if sub == 1:
+            M = np.eye(m)
+            for _ in range(rng.rint(1, m + 1)):
+                a = rng.below(m - 1)
+                b = rng.rint(a + 1, m - 1)
+                M = M @ givens(np, m, a, b, rng.below(1 << 30) / float(1 << 30) * 2 * math.pi).real
+            return M.astype(complex)
+        if m in (2, 4):
+            h2 = np.array([[1., 1.], [1., -1.]])
+            return ((h2 / math.sqrt(2)) if m == 2 else np.kron(h2, h2) / 2).astype(complex)
+        v = np.random.randn(m)
+        return (np.eye(m) - 2 * np.outer(v, v) / (v @ v)).astype(complex)
+    if kind == "sperm":
+        return (permm() * np.array([rng.choice([1, -1]) for _ in range(m)])).astype(complex)
     raise ValueError(kind)
+
+
+# representations of the requested matrix (the mathematical matrix is always the complex128 array U)
+def reps_for(np, U, inv_h):
+    if inv_h:                       # U.inv() is a method of perceval's Matrix only
+        return ["Matrix"]
+    reps = ["Matrix", "complex128", "fortran", "tview", "readonly"]
+    if not np.any(U.imag):
+        reps += ["float64", "float64", "readonly-float64"]
+        if np.array_equal(U.real, np.rint(U.real)):
+            reps += ["int64", "int64", "int8"]
+    return reps
+
+
+def to_rep(np, pcvl, U, rep):
+    if rep == "Matrix":
+        return pcvl.Matrix(U.copy())
+    if rep == "complex128":
+        return U.copy()
+    if rep == "fortran":
+        return np.asfortranarray(U.copy())
+    if rep == "tview":
+        return np.ascontiguousarray(U.T).T          # non-contiguous transposed view holding the same values
+    if rep == "readonly":
+        A = U.copy()
+        A.setflags(write=False)
+        return A
+    if rep == "float64":
+        return U.real.astype(np.float64)
+    if rep == "readonly-float64":
+        A = U.real.astype(np.float64)
+        A.setflags(write=False)
+        return A
+    if rep == "int64":
+        return np.rint(U.real).astype(np.int64)
+    if rep == "int8":
+        return np.rint(U.real).astype(np.int8)
+    if rep == "complex64":
+        return U.astype(np.complex64)
+    if rep == "list":
+        return U.tolist()
+    raise ValueError(rep)
 
 
 def givens(np, m, a, b, eps):
@@ -191,9 +259,11 @@ class Recorder:
         self.dmod, self.np, self.PERM = dmod, np, PERM
         self.orig = dmod.decompose_triangle
         self.calls = []
+        self.entered = False
 
     def __enter__(self):
         def wrapper(*a, **k):
+            self.entered = True
             lc = self.orig(*a, **k)
             if lc is None:
                 self.calls.append(None)
@@ -268,18 +338,39 @@ def run_case(env, cfg, U):
     precq = frac_of_float(prec)
     if cfg["constraints"]:
         kw["constraints"] = [(None, 0.0), (None, math.pi / 2), (None, None)]
-    Uin = pcvl.Matrix(U.copy())
+    rep = cfg.get("rep", "Matrix")
+    Uin = to_rep(np, pcvl, U, rep)
     fails = []
+    rec = None
     try:
         with Recorder(dmod, np, PERM) as rec:
-            C = Circuit.decomposition(Uin, block, **kw)
+            if cfg.get("direct"):
+                # the public elimination function itself, circuit assembled as Circuit.decomposition does
+                lc0 = dmod.decompose_triangle(Uin, block, kw["phase_shifter_fn"], kw["permutation"], prec,
+                                              kw.get("constraints"), False, cfg["iib"])
+                C = None
+                if lc0 is not None:
+                    C = Circuit(m)
+                    for r0, c0 in lc0:
+                        C.add(r0, c0, merge=cfg["merge"])
+            else:
+                C = Circuit.decomposition(Uin, block, **kw)
     except Exception as e:  # noqa
-        return "exception", [(f"exception-{type(e).__name__}", f"Circuit.decomposition raised {type(e).__name__}: {e}",
+        ro = isinstance(e, ValueError) and "read-only" in str(e)
+        if rep != "Matrix" and not rec.entered and not ro:
+            # a container other than perceval's Matrix refused before the elimination started (no .inv / .shape, single
+            # precision failing is_unitary): a rejection, not a wrong answer
+            ctx.count(f"rejected.{rep}.{type(e).__name__}")
+            return "rejected", []
+        sig = f"exception-{type(e).__name__}" + (":read-only-array-with-negligible-entry" if ro else "")
+        return "exception", [(sig, f"Circuit.decomposition raised {type(e).__name__}: {e}" +
+                              (" (the elimination writes `u[n, j] = 0` into the caller's own array when the first cell it "
+                               "visits is already negligible)" if ro else ""),
                               "a circuit or None", repr(e)[:300])]
     env["last_info"] = {"tries": len(rec.calls), "abandoned": sum(1 for x in rec.calls if x is None)}
     # the caller's matrix object: entries <= precision may be overwritten with 0 by the elimination (unchanged code,
     # `u[n, j] = 0` on the argument itself); anything larger means the request was reduced in place
-    drift = float(abs(np.array(Uin) - U).max())
+    drift = float(abs(np.array(Uin, dtype=complex) - U).max())
     if drift > prec:
         fails.append(("caller-matrix-modified", "the matrix object passed to Circuit.decomposition was modified by the call",
                       f"entries unchanged (up to entries <= precision={prec:g} set to 0)", f"max change {drift:.3e}"))
@@ -441,8 +532,9 @@ def run(ctx):
     non = [k for k, (u, _) in env["blocks"].items() if not u]
 
     def base_cfg(**kw):
+        # rep None = drawn, once the matrix is known, among the representations that can hold it
         cfg = dict(block="mzi", phase=True, perm=False, inv_h=False, inv_v=False, iib=True, merge=False,
-                   constraints=False, max_try=10)
+                   constraints=False, max_try=10, rep=None, direct=False)
         cfg.update(kw)
         return cfg
 
@@ -452,12 +544,20 @@ def run(ctx):
         for h, v in ((False, False), (True, False), (False, True), (True, True)):
             if b in ("mzi_low", "mzi_ry", "bsH_tr", "bsRy_tr") and (h, v) in ((False, True), (True, False)) and ctx.quick():
                 continue
-            cases.append(("haar", 3, base_cfg(block=b, inv_h=h, inv_v=v, phase=not (h and v and b == "mzi"))))
+            cases.append(("haar", 3, base_cfg(block=b, inv_h=h, inv_v=v, phase=not (h and v and b == "mzi"), rep="Matrix")))
     for kind in KINDS:
         cases.append((kind, 4, base_cfg(perm=True, block="mzi")))
         cases.append((kind, 4, base_cfg(perm=True, iib=False, block="bs_tr", phase=False)))
+    # representation of the request: real orthogonal matrices as float arrays, (signed) permutations as int arrays,
+    # also through the public elimination function itself; single precision and nested lists may be refused
+    cases += [("real", 3, base_cfg(rep="float64")), ("real", 4, base_cfg(rep="float64", inv_v=True, block="bs_tr")),
+              ("real", 4, base_cfg(rep="readonly-float64", phase=False)), ("sperm", 4, base_cfg(rep="int64")),
+              ("perm", 4, base_cfg(rep="int8", block="mzi_low")), ("sperm", 3, base_cfg(rep="int64", perm=True, inv_v=True)),
+              ("real", 3, base_cfg(rep="float64", direct=True)), ("sperm", 3, base_cfg(rep="int64", direct=True, block="bs_tr")),
+              ("haar", 3, base_cfg(rep="Matrix", direct=True)), ("haar", 3, base_cfg(rep="tview", direct=True, phase=False)),
+              ("haar", 3, base_cfg(rep="complex64")), ("haar", 3, base_cfg(rep="list")), ("diag", 3, base_cfg(rep="readonly"))]
     # random part
-    n_rand = ctx.n(50, 900)
+    n_rand = ctx.n(44, 900)
     for _ in range(n_rand):
         kind = rng.choice(KINDS)
         m = rng.choice([2, 3, 3, 4, 4, 5, 5, 6]) if not ctx.quick() else rng.choice([2, 3, 3, 4, 4, 5, 6])
@@ -466,62 +566,80 @@ def run(ctx):
                        inv_v=rng.chance(1, 4), iib=rng.chance(3, 4), merge=rng.chance(1, 3),
                        constraints=(b in ("mzi", "mzi_low") and rng.chance(1, 4)),
                        max_try=10 if b in uni else 2)
+        if not cfg["inv_h"] and not cfg["inv_v"] and rng.chance(1, 8):
+            cfg["direct"] = True
         cases.append((kind, m, cfg))
 
     n_main = len(cases)
     # weakly coupled modes (default precision): entries far below / just below / just above / far above `precision`;
-    # the solver often needs several tries here, so abandoned-then-successful retries are exercised as well
+    # the solver often needs several tries here, so abandoned-then-successful retries are exercised as well — with every
+    # flag combination
     n_weak = ctx.n(34, 500)
     for _ in range(n_weak):
         m = rng.choice([2, 3, 4, 4, 5])
         b = rng.choice(["mzi", "mzi", "mzi", "mzi_low", "bs_tr"])
-        cases.append(("weak", m, base_cfg(block=b, phase=rng.chance(4, 5), perm=rng.chance(1, 3), iib=rng.chance(7, 8))))
-    # tight but legal precision with many retries: the solver misses some cells, tries get abandoned partway and a
-    # later try must still start from the requested matrix
-    n_tight = ctx.n(8, 80)
-    for i in range(n_tight):
-        cases.append(("haar", rng.choice([3, 3, 4]), base_cfg(block=rng.choice(["mzi", "mzi", "mzi_low"]), max_try=30,
-                                                              phase=rng.chance(3, 4), perm=rng.chance(1, 4),
-                                                              precision=rng.choice([4e-9, 6e-9]))))
+        cases.append(("weak", m, base_cfg(block=b, phase=rng.chance(4, 5), perm=rng.chance(1, 3), iib=rng.chance(7, 8),
+                                          inv_h=rng.chance(1, 4), inv_v=rng.chance(1, 4), merge=rng.chance(1, 4))))
+
+    def tight_cfg():
+        # tight but legal precision with many retries: the solver misses some cells, tries get abandoned partway and a
+        # later try must still start from the (pre-processed) request — crossed with every flag
+        b = rng.choice(["mzi", "mzi", "mzi_low"])
+        h, v = rng.choice([(True, False), (False, True), (True, True), (False, False), (True, False), (False, True)])
+        return ("haar", rng.choice([3, 4, 4]),
+                base_cfg(block=b, max_try=30, phase=rng.chance(3, 4), perm=rng.chance(1, 4), inv_h=h, inv_v=v,
+                         iib=rng.chance(3, 4), merge=rng.chance(1, 4), constraints=rng.chance(1, 5),
+                         precision=rng.choice([4e-9, 4e-9, 6e-9])))
+
     from ..framework import load_findings
     known = {f["signature"] for f in load_findings() if f.get("property") == "C12" and f.get("status", "open") == "open"}
     shrunk = set()
 
-    stats = {"found": 0, "none": 0, "exception": 0}
-    uni_total = uni_found = 0
-    weak_total = weak_found = tight_total = tight_found = retried_ok = abandoned_total = 0
+    stats = {"found": 0, "none": 0, "exception": 0, "rejected": 0}
+    cnt = dict(uni_total=0, uni_found=0, weak_total=0, weak_found=0, tight_total=0, tight_found=0, retried_ok=0,
+               abandoned=0, even_inv=0, nonmatrix_found=0)
     t0 = time.time()
-    for idx, (kind, m, cfg) in enumerate(cases):
+
+    def process(kind, m, cfg):
         cfg = dict(cfg, kind=kind)
         meta = None
         if kind == "weak":
             meta, U = gen_weak(np, pcvl, rng, m)
         else:
             U = gen_matrix(np, pcvl, rng, kind, m)
+        if cfg["rep"] is None:
+            cfg["rep"] = rng.choice(reps_for(np, U, cfg["inv_h"])) if rng.chance(2, 3) else "Matrix"
         env["last_info"] = {"tries": 0, "abandoned": 0}
         status, fails = run_case(env, cfg, U)
         info = dict(env["last_info"])
         stats[status] += 1
-        abandoned_total += info["abandoned"]
+        cnt["abandoned"] += info["abandoned"]
         if status == "found" and info["abandoned"] > 0:
-            retried_ok += 1
+            cnt["retried_ok"] += 1
             ctx.count("result.found-after-abandoned-tries")
+            if (cfg["inv_h"] or cfg["inv_v"]) and info["tries"] % 2 == 0:
+                cnt["even_inv"] += 1
+                ctx.count("result.found-at-even-attempt-with-inversion")
+        if status == "found" and cfg["rep"] != "Matrix":
+            cnt["nonmatrix_found"] += 1
         universal = env["blocks"][cfg["block"]][0]
         tight = cfg.get("precision", 1e-6) < 1e-6
-        if kind == "weak":
-            weak_total += 1
-            weak_found += status == "found"
-        elif tight:
-            tight_total += 1
-            tight_found += status == "found"
-        elif universal:
-            uni_total += 1
-            uni_found += status == "found"
+        if status in ("found", "none"):
+            if kind == "weak":
+                cnt["weak_total"] += 1
+                cnt["weak_found"] += status == "found"
+            elif tight:
+                cnt["tight_total"] += 1
+                cnt["tight_found"] += status == "found"
+            elif universal:
+                cnt["uni_total"] += 1
+                cnt["uni_found"] += status == "found"
         ctx.count(f"kind.{kind}")
         ctx.count(f"block.{cfg['block']}")
         ctx.count(f"size.{m}")
         ctx.count(f"result.{status}")
-        for f in ("phase", "perm", "inv_h", "inv_v", "iib", "merge", "constraints"):
+        ctx.count(f"rep.{cfg['rep']}")
+        for f in ("phase", "perm", "inv_h", "inv_v", "iib", "merge", "constraints", "direct"):
             if cfg[f]:
                 ctx.count(f"flag.{f}")
         nontrivial = status == "found" and m >= 3
@@ -539,20 +657,36 @@ def run(ctx):
             if meta:
                 case["weak"] = meta if case["U"] == describe(cfg, U)["U"] else "matrix regenerated by the shrinker (same generator)"
             ctx.fail(sig, what, case, expected=str(exp)[:500], observed=str(obs)[:500])
+
+    for kind, m, cfg in cases:
+        process(kind, m, cfg)
+    # tight-precision stream, continued until enough circuits were found at an EVEN attempt under an inversion flag (the
+    # situation in which a pre-processing wrongly redone per attempt shows), within a fixed case budget
+    n_tight, lo, hi, quota = 0, ctx.n(8, 60), ctx.n(16, 120), ctx.n(3, 20)
+    while n_tight < lo or (cnt["even_inv"] < quota and n_tight < hi):
+        process(*tight_cfg())
+        n_tight += 1
     ctx.streams["decomposition"] = n_main
     ctx.streams["weakly-coupled"] = n_weak
     ctx.streams["tight-precision-retries"] = n_tight
-    ctx.streams["universal-found-rate"] = f"{uni_found}/{uni_total}"
-    ctx.streams["weakly-coupled-found-rate"] = f"{weak_found}/{weak_total}"
-    ctx.streams["tight-precision-found-rate"] = f"{tight_found}/{tight_total}"
-    ctx.streams["found-after-abandoned-tries"] = retried_ok
-    ctx.notes.append(f"universal blocks: {uni_found}/{uni_total} decomposed within max_try (Haar/permutation/block/diagonal/"
-                     f"sparse inputs, default precision); weakly coupled inputs {weak_found}/{weak_total}; tight precision "
-                     f"{tight_found}/{tight_total} (None accepted there: precision below the solver's accuracy); "
-                     f"{abandoned_total} abandoned tries in all, {retried_ok} circuits returned after at least one "
-                     f"abandoned try; results {stats}; {time.time() - t0:.1f}s")
-    if retried_ok == 0:
+    ctx.streams["universal-found-rate"] = f"{cnt['uni_found']}/{cnt['uni_total']}"
+    ctx.streams["weakly-coupled-found-rate"] = f"{cnt['weak_found']}/{cnt['weak_total']}"
+    ctx.streams["tight-precision-found-rate"] = f"{cnt['tight_found']}/{cnt['tight_total']}"
+    ctx.streams["found-after-abandoned-tries"] = cnt["retried_ok"]
+    ctx.streams["found-at-even-attempt-with-inversion"] = cnt["even_inv"]
+    ctx.streams["found-from-non-Matrix-representation"] = cnt["nonmatrix_found"]
+    ctx.notes.append(f"universal blocks: {cnt['uni_found']}/{cnt['uni_total']} decomposed within max_try (Haar/permutation/"
+                     f"block/diagonal/sparse/real/signed-permutation inputs, default precision); weakly coupled inputs "
+                     f"{cnt['weak_found']}/{cnt['weak_total']}; tight precision {cnt['tight_found']}/{cnt['tight_total']} "
+                     f"(None accepted there: precision below the solver's accuracy); {cnt['abandoned']} abandoned tries in "
+                     f"all, {cnt['retried_ok']} circuits returned after at least one abandoned try, {cnt['even_inv']} of "
+                     f"them at an even attempt under inverse_h/inverse_v; {cnt['nonmatrix_found']} circuits from requests "
+                     f"given as plain numpy arrays (float / int / views / read-only); results {stats}; "
+                     f"{time.time() - t0:.1f}s")
+    if cnt["retried_ok"] == 0:
         ctx.notes.append("WARNING: no case of this run returned a circuit after an abandoned try")
+    if cnt["even_inv"] == 0:
+        ctx.notes.append("WARNING: no circuit was found at an even attempt under an inversion flag in this run")
     # extraction cross-check on a small sample (same requests evaluated by vm_compute inside Coq)
     A = [[QI(1), QI(0)], [QI(0), QI(Fraction(1, 2), Fraction(1, 3))]]
     B = [[QI(1), QI(0)], [QI(Fraction(1, 1000)), QI(Fraction(1, 2), Fraction(1, 3))]]
@@ -577,6 +711,8 @@ def shrink(env, sig, kind, m, cfg, U):
     best = (cfg, U)
 
     def still(c, M):
+        if c.get("rep", "Matrix") not in reps_for(np, M, c["inv_h"]) + ["complex64", "list"]:
+            return False                         # this container cannot hold that matrix
         try:
             _, fl = run_case(env, c, M)
         except Exception:
